@@ -177,19 +177,41 @@ CHECKS.update({
              'formula of the small scope, random to depth 5 incl. atoms named AX, Xp, nota, EG.',
         note=TB + 'That Lark\'s LALR parser decodes printed text like the verified decoder is validated (exhaustive small '
              'scope), not proved.'),
+    'C08': dict(
+        cat='proof', ref='5/C08',
+        technique='translator (live class lattice -> ClassTable.lean) + Lean 4 theorems construct_sound/complete/rejects, '
+                  'castTo_*, guard*_eq for the reference lattice + generated obligation table_ok (decide) + exhaustive '
+                  'differential run over operator trees',
+        text='Theorems PMC.C08.*: over the reference lattice, construction and cast_to succeed exactly on the trees that '
+             'are formulas of the target logic (same tree) and otherwise raise TypeError (AttributeError only for an '
+             'operator the module lacks); the three modelcheck guards pass exactly on CTL state formulas / A over an LTL '
+             'path formula / CTL* state formulas and reject a non-Kripke. table_ok : generatedTable = refTable is '
+             're-checked whenever /repo changes the lattice. Tie: all ranked trees to depth 2 + sampled depth 3 x 4 '
+             'modules x {construct, cast_to, mixed-module operands, 3 guards}; direct oracle: whatever is built in M is '
+             'a formula of M by the documented syntax.',
+        note=TB + '__mro__ is extracted, not re-derived; operand counts are not checked by the constructors (outside the '
+             'ranked trees of the property); LTL.modelcheck rejects CTL-module objects and CTLS.modelcheck PL-module '
+             'objects (rejections, recorded in the guard theorems).'),
     'C10': dict(
-        cat='translation_validation', ref='5/C10',
-        technique='table-driven Lean model of the four Lark parsers (contextual lexer + LR driver + callbacks) whose '
-                  'tables are regenerated from the live parser objects on every run; differential validation against '
-                  'the real parsers + direct oracle on the implementation',
-        text='The lexer/LR/callback model interprets the tables extracted from the live Lark objects and must agree '
+        cat='proof', ref='5/C10',
+        technique='translator (live Lark tables -> Grammar.lean) + Lean 4 theorems about the table-driven parser model for '
+                  'EVERY table (error positions within the input, only the two error kinds besides internal ones, '
+                  'acceptance follows a derivation of the extracted rules) + generated obligations grammar_ok_* / '
+                  'accept_ok_* (decide) => result is a formula of the logic + differential validation against the real '
+                  'parsers + direct oracle',
+        text='Theorems PMC.C10.*: unexpectedToken_pos / unexpectedCharacters_pos (p <= |s|, any table), error_kinds, '
+             'accept_sound (parse T s = ok f => a derivation of f from the start symbol over tokens that lex s), '
+             'typing_table_sound + grammar_ok_PL/CTL/LTL/CTLS (re-checked when the grammars change) => '
+             'parse_in_logic_*; corollaries ctl_rejects_AFGq, ltl_never_E, ltl_rejects_E_p. The lexer/LR/callback model interprets the tables extracted from the live Lark objects and must agree '
              'with the real parsers in verdict, tree, exception class and position on: a hand-written corpus, every '
              'string over {",\\,a,newline} up to length 6, special characters in 8 contexts, printed formulas, random '
              'spellings, token and character mutations, random token sequences and noise, all fed to all four parsers. '
              'Independently the implementation\'s outcome is checked against the property itself (only the two '
              'ParserError classes, 0<=pos<=len, result in the logic and of the logic\'s module).',
-        note=TB + 'Lark\'s table construction is in the trusted base; theorems about the table-driven model (error positions, '
-             'acceptance follows a derivation, grammar_ok => result in the logic) are added when proved.'),
+        note=TB + 'Lark\'s table construction is in the trusted base (the tables are extracted, and the real driver is '
+             'validated against the model); that the internal errors (inconsistent table, fuel) never occur with the '
+             'generated tables is checked by the correspondence, not proved; the Lexes relation over-approximates the '
+             'contextual lexer.'),
     'C19': dict(
         cat='proof', ref='5/C19',
         technique='Lean 4 theorems ctl_ok / ltl_ok / ctls_ok (always a set of K\'s states, no hypothesis on atoms or '
